@@ -5,6 +5,7 @@ mod drive;
 mod enc;
 mod indep;
 mod mfam;
+mod pyfam;
 mod model;
 mod qfam;
 mod refm;
